@@ -355,6 +355,11 @@ def load_realign(repo):
 
     if "WavefrontAligner" in mod.__dict__:
         mod.WavefrontAligner = AlignerShim
+    # the worker code may live in another gaftools module (helpers split off from realign.py)
+    for mname, m in list(sys.modules.items()):
+        if m is not None and m is not mod and (mname == "gaftools" or mname.startswith("gaftools.")):
+            if m.__dict__.get("WavefrontAligner") is real_aligner:
+                m.WavefrontAligner = AlignerShim
     # files opened for writing by the code under test are tracked so that they can be flushed at
     # "interpreter exit" (run_realign never closes its output)
     class WorkerFile:
@@ -397,6 +402,9 @@ def load_realign(repo):
         return f
 
     mod.open = tracking_open
+    for mname, m in list(sys.modules.items()):
+        if m is not None and m is not mod and mname.startswith("gaftools.cli.") and "open" not in m.__dict__:
+            m.open = tracking_open  # files written by helpers that were split off from realign.py
     _MOD_INFO["mutable_globals"] = _mutable_globals()
     _MOD = mod
     return mod
